@@ -1,7 +1,7 @@
 """C06 – a ResendRequest is answered completely, in order and without side effects.  DESIGN.md §6 C06.
 
-proof:  Props/C06.lean (resend_reply_chain, invalid_request_no_side_effect, resend_partial,
-        no_session_message_retransmitted, reply_numbers_ascending); Findings/C06.lean refutes resend_full
+proof:  Props/C06.lean (resend_full for ALL (BeginSeqNo, EndSeqNo), resend_reply_chain,
+        invalid_request_no_side_effect, no_session_message_retransmitted, reply_numbers_ascending)
 tie:    journal-shape enumeration through harness/sess_common: every outbound journal over the slot
         alphabet {application, application the filter declines, each of the 6 session types, hole,
         retransmitted copy left by an earlier resend, left-over gap fill} x every (BeginSeqNo, EndSeqNo)
@@ -11,7 +11,9 @@ tie:    journal-shape enumeration through harness/sess_common: every outbound jo
 oracle: the ReplyChain specification implemented HERE in Python (nothing of the Lean side is used),
         evaluated on the frames decoded from the bytes the real connection wrote, plus side-effect
         freedom (counter, stored counter, state, rows outside the range, nothing but writes and state
-        notifications).  Failures of the D9 class carry ONE signature, anything else is a violation.
+        notifications).  The symptoms of the former finding D9 (bounded EndSeqNo: reply runs past it, rows
+        after it deleted; repaired by /repo da179c4) keep ONE signature of their own; nothing is listed as
+        known any more, so every failure is a violation.
 """
 from __future__ import annotations
 
@@ -25,7 +27,6 @@ from . import sess_common as S
 
 PROP = "C06"
 PROPS_MODULES = ["AsyncFix.Props.C06"]
-FINDINGS_MODULE = "AsyncFix.Findings.C06"
 D9_SIG = "C06-bounded-end-gapfills-and-deletes-tail"
 ASSUMPTIONS = [
     "OutInv (property C05) is a HYPOTHESIS of the C06 theorems: outbound rows strictly ascending, row n is a complete "
@@ -360,7 +361,7 @@ def corpus_cases():
 
 
 WITNESSES = [
-    {"journal": ["a"] * 5, "b": 2, "e": 3, "state": 17},    # the Lean counter-example (Findings/C06.lean)
+    {"journal": ["a"] * 5, "b": 2, "e": 3, "state": 17},    # the former D9 counter-example (examples in Props/C06.lean)
     {"journal": ["a"] * 5, "b": 4, "e": 2, "state": 17},
     {"journal": ["a"] * 5, "b": 2, "e": 3, "state": 12},
     {"journal": ["a"] * 5, "b": 3, "e": -1, "state": 17},
@@ -482,7 +483,7 @@ def oracle(ctx, disagreements, broken):
         ctx.c06_failcount = {}
     n = 0
     try:
-        # always: witnesses of the open finding, the corpus, a modest complete scope
+        # always: witnesses of the former finding D9, the corpus, a modest complete scope
         fixed = [dict(c, repeat=c.get("repeat", 3)) for c in WITNESSES + corpus_cases()]
         n += run_both(ctx, impl, None, fixed, stats, [], fails)
         n += run_both(ctx, impl, None, enum_cases(RED, range(0, 4)), stats, [], fails)
